@@ -138,7 +138,17 @@ check('C19', 'Hypothesis choice tapes decoded into G4 documents with outline-sha
       'Sampling only; cases without a qualifying heading or whose qualifying headings are not an outline are skipped and counted.',
       'DESIGN.md 5/C19')
 
+check('C09', 'round-trip oracle (parse -> MarkdownRenderer -> parse) over Hypothesis-generated G4 documents in free and normal-form spelling and the complete spec corpus, x normalize_whitespace',
+      'hypothesis-sharded + enumeration-pool',
+      'For each text: HtmlRenderer output and link definitions of the re-rendered Markdown must equal those of the source, a second '
+      'rendering must reproduce the first byte for byte, and documents written in the renderer\'s normal form must be reproduced byte for '
+      'byte. The 652 spec examples are enumerated completely under both option values; the examples affected by recorded findings are '
+      'listed one by one, so a new failing example is a violation.',
+      'Generated domain excludes the input classes of the recorded findings (character references, escapes in destinations/titles, empty '
+      'list items, empty ATX heading with closing sequence). Sampling except for the corpus part.',
+      'DESIGN.md 5/C09')
+
 _PENDING = 'check not built yet in this revision (work in progress; technique applies, see DESIGN.md section 5)'
-for _p in ['C09', 'C10',
+for _p in ['C10',
            ]:
     NOT_YET[_p] = _PENDING
